@@ -101,6 +101,13 @@ pub fn gen_case(prop: &str, seed: u64, idx: u64) -> Case {
             case.sim.write_chunk_max = *r.pick(&[0usize, 1, 5]);
             case.sim.big_payload_pct = 0;
             case.sim.op_gap_max_ms = *r.pick(&[0u64, 5, 300]);
+            if prop == "C15" && r.chance(1, 4) {
+                // a user-requested DISCONNECT among the operations (large enough to be half written with
+                // the small buffers): the enumerated transport failures then also hit "connection lost
+                // while the DISCONNECT is queued / half written / written"
+                case.sim.stop_permille = *r.pick(&[30u64, 100]);
+                case.sim.stop_with_props = r.chance(1, 2);
+            }
         }
         "C05" => {
             mixed(&mut case, r);
